@@ -436,6 +436,12 @@ func c10Inbound(r *vfRun) {
 				return
 			}
 		}
+		if !w.chkAttrs && op.K != "mkdir" && op.K != "open" && (c.Flags != 0 || len(c.Attrs) != 0) {
+			// a request that carries neither flags nor attributes (STAT, FSTAT, REMOVE, RENAME, ...): the handler must not be
+			// shown any - least of all those of an earlier request
+			r.fail("C10/flags-or-attrs-altered", w.method+"-"+op.K+"-stale", "request %v carries no flags or attributes, but the handler's Request has Flags=%#x Attrs=%x", q, c.Flags, c.Attrs)
+			return
+		}
 		if op.K == "mkdir" && q.Attrs.Flags != 0 {
 			deferFail("C10/attribute-flags-not-passed", "mkdir-attrs-dropped", "MKDIR %v carries attributes (flags %#x) but the handler's Request has Flags=%#x Attrs=%x", q, q.Attrs.Flags, c.Flags, c.Attrs)
 		}
